@@ -281,7 +281,8 @@ def parent_main(pid, tier, seed):
         known_findings_observed=known_seen,
         violation_keys={k: vio_count.get(k, 0) for k in unknown},
         inconclusive=merged.inconclusive[:10],
-        verdict={0: 'held on everything explored', 1: 'violated', 2: 'inconclusive'}[rc],
+        verdict={0: 'held on everything explored' + (' apart from the listed known finding(s)' if known_seen else ''),
+                 1: 'violated', 2: 'inconclusive'}[rc],
     )
     if exhaustive and all(exhaustive.values()) and meta.get('EXHAUSTIVE_WHOLE'):
         cov['exhaustive'] = True
